@@ -664,6 +664,129 @@ fn uncontrolled(report: &mut Report, tier: Tier) {
     report.cov("supplementary_uncontrolled_builds_sampled", runs);
 }
 
+/// Supplementary, sampled: the real `ConcurrentNodeIds::next` hammered by free-running threads
+/// released together from a barrier. The exhaustive L1 search yields at the atomic operations
+/// the generator uses *today*; a generator rewritten around another primitive (a lock) has no
+/// yield point inside `next()` and only real preemption can separate its steps. A duplicate or
+/// in-use id is a violation whatever produced it, so this run cannot raise a false alarm.
+fn hammer(report: &mut Report, tier: Tier) {
+    let rounds = if tier == Tier::Quick { 60 } else { 2000 };
+    let mut calls_total = 0u64;
+    let used_sets: Vec<RoaringBitmap> = vec![
+        RoaringBitmap::new(),
+        (0..64u32).step_by(2).collect(),
+        (0..200u32).filter(|i| i % 7 != 3).collect(),
+        [0u32, 5, 6, 900].into_iter().collect(),
+    ];
+    for used in &used_sets {
+        for threads in [2usize, 4, 16] {
+            for round in 0..rounds {
+                let calls = 1 + (round % 5) * 8;
+                let ids = Arc::new(arroy::verif::ConcurrentNodeIds::new(used.clone()));
+                let barrier = Arc::new(std::sync::Barrier::new(threads));
+                let handles: Vec<_> = (0..threads)
+                    .map(|_| {
+                        let ids = ids.clone();
+                        let barrier = barrier.clone();
+                        std::thread::spawn(move || {
+                            barrier.wait();
+                            (0..calls).map(|_| ids.next().map_err(|e| e.to_string())).collect::<Result<Vec<u32>, String>>()
+                        })
+                    })
+                    .collect();
+                let mut returned = Vec::new();
+                for h in handles {
+                    match h.join() {
+                        Ok(Ok(v)) => returned.push(v),
+                        Ok(Err(e)) => {
+                            report.add_violation(Violation::new("N/next-failed:hammer", format!("next() failed: {e}")));
+                            return;
+                        }
+                        Err(_) => {
+                            report.add_violation(Violation::new("N/next-panicked:hammer", "a thread calling next() panicked".to_string()));
+                            return;
+                        }
+                    }
+                }
+                calls_total += (threads * calls) as u64;
+                if let Err(m) = l1_oracle(used, &returned) {
+                    report.add_violation(Violation {
+                        signature: "N/id-collision:free-running".into(),
+                        what: format!("{threads} free-running threads x {calls} calls, {} ids in use: {}", used.len(), m.chars().take(300).collect::<String>()),
+                        replay: json!({"engine": "hammer", "threads": threads, "calls": calls, "used": used.iter().collect::<Vec<_>>()}),
+                    });
+                    return;
+                }
+            }
+        }
+    }
+    report.cov("supplementary_free_running_next_calls_sampled", calls_total);
+}
+
+/// L3 (fault enumeration inside the check, thread count irrelevant): a *first* build is
+/// cancelled at poll n — for every n — and the transaction is committed all the same, which
+/// leaves tree nodes without metadata; the index is then rebuilt. Those nodes are in use in
+/// the database: the rebuild must not be handed their ids, i.e. every node left behind is
+/// byte-identical afterwards (nothing refers to them, so nothing else may rewrite them).
+fn level3(report: &mut Report, tier: Tier) {
+    use crate::layout::{parse_key, KIND_TREE};
+    let metric = Metric::Euclidean;
+    let dim = 2usize;
+    let configs: Vec<(usize, usize, usize)> = if tier == Tier::Quick { vec![(12, 2, 1), (40, 3, 2)] } else { vec![(12, 2, 1), (40, 3, 2), (40, 1, 1), (150, 4, 2), (400, 2, 3)] };
+    let mut positions = 0u64;
+    let mut with_leftovers = 0u64;
+    let mut found: Option<Violation> = None;
+    crate::explore::in_single_thread_pool(|| {
+        'all: for (n_items, n_trees, cap) in &configs {
+            let mut n = 0u64;
+            loop {
+                let s = Scratch::new("c13c");
+                let mut types = IndexTypes::new();
+                types.insert(0, (metric, dim));
+                let mut wtxn = s.env.write_txn().unwrap();
+                for i in 0..*n_items {
+                    let v: Vec<u32> = vec![(((i * 7) % 23) as f32 - 11.0).to_bits(), (((i * 5) % 17) as f32 - 8.0).to_bits()];
+                    exec(s.db, &mut wtxn, &mut types, &Action::Add { index: 0, id: i as u32, vec: v });
+                }
+                let opts = BuildOpts { n_trees: Some(*n_trees), split_after: Some(*cap), memory: None, seed: 5, cancel_at: Some(n) };
+                let (o, _) = exec(s.db, &mut wtxn, &mut types, &Action::Build { index: 0, opts: opts.clone() });
+                if o.is_ok() {
+                    break;
+                }
+                wtxn.commit().unwrap();
+                positions += 1;
+                let mut wtxn = s.env.write_txn().unwrap();
+                let before: Kv = s.dump(&wtxn).into_iter().filter(|(k, _)| parse_key(k).map_or(false, |p| p.kind == KIND_TREE)).collect();
+                if !before.is_empty() {
+                    with_leftovers += 1;
+                }
+                let (o, _) = exec(s.db, &mut wtxn, &mut types, &Action::Build { index: 0, opts: BuildOpts { cancel_at: None, seed: 6, ..opts.clone() } });
+                let what = format!("{n_items} items, first build ({n_trees} trees, capacity {cap}) cancelled from poll {n} on and committed, then rebuilt");
+                if !o.is_ok() {
+                    found = Some(Violation::new("N/rebuild-failed", format!("{what}: the rebuild returned {}", o.describe())));
+                    break 'all;
+                }
+                let after: BTreeMap<Vec<u8>, Vec<u8>> = s.dump(&wtxn).into_iter().collect();
+                let overwritten: Vec<u32> = before.iter().filter(|(k, v)| after.get(k) != Some(v)).map(|(k, _)| parse_key(k).unwrap().id).collect();
+                if !overwritten.is_empty() {
+                    found = Some(Violation {
+                        signature: "N/id-in-use-handed-out".into(),
+                        what: format!("{what}: tree nodes {:?} were in use in the database (left by the cancelled build, referenced by nothing) and were overwritten or removed: their ids were handed out again", overwritten.iter().take(12).collect::<Vec<_>>()),
+                        replay: json!({"engine": "c13-l3", "items": n_items, "n_trees": n_trees, "split_after": cap, "cancel_at": n}),
+                    });
+                    break 'all;
+                }
+                n += 1;
+            }
+        }
+    });
+    if let Some(v) = found {
+        report.add_violation(v);
+    }
+    report.cov("l3_cancel_positions", positions);
+    report.cov("l3_positions_leaving_tree_nodes", with_leftovers);
+}
+
 pub fn run(tier: Tier) -> i32 {
     let mut report = Report::new("C13", tier, "model_checking");
     report.assume("interleavings are explored under sequential consistency; every write of the generator is an atomic read-modify-write or a one-way flag store, so Relaxed orderings add no behaviour relevant to uniqueness (DESIGN.md C13)");
@@ -671,7 +794,9 @@ pub fn run(tier: Tier) -> i32 {
     report.cov("exhaustive", true);
     level1(&mut report, tier);
     level2(&mut report, tier);
+    level3(&mut report, tier);
     uncontrolled(&mut report, tier);
-    report.cov("oracle", "L1: all ids returned by concurrent next() calls are pairwise distinct and none is in the used set, for every interleaving of the atomic steps (stateful DFS: a revisited (generator state, per-thread progress, ids handed out) is not re-expanded); L2: for every interleaving of the next() calls of the per-tree tasks of a real incremental build the build succeeds and the structure oracle S holds (how many distinct forests, up to node ids, the schedules produce is recorded, not judged)");
+    hammer(&mut report, tier);
+    report.cov("oracle", "L3: for every cancel position of a first build that is committed all the same, the rebuild leaves every tree node the cancelled build left behind byte-identical (ids in use in the database are not handed out); supplementary, sampled: free-running threads hammering next() from a barrier (distinct, not in use) and uncontrolled builds in pools of 1..16 threads; L1: all ids returned by concurrent next() calls are pairwise distinct and none is in the used set, for every interleaving of the atomic steps (stateful DFS: a revisited (generator state, per-thread progress, ids handed out) is not re-expanded); L2: for every interleaving of the next() calls of the per-tree tasks of a real incremental build the build succeeds and the structure oracle S holds (how many distinct forests, up to node ids, the schedules produce is recorded, not judged)");
     report.finish()
 }
